@@ -59,6 +59,7 @@ class FakeOS:
         self._next_fd = 100
 
     def open(self, path, flags):
+        self.gw.open_attempts.append((self.gw.sim.loop.time(), self.gw.present))
         if not self.gw.present:
             raise OSError(errno.ENOENT, "no such device")
         self._next_fd += 1
@@ -76,6 +77,7 @@ class FakeOS:
         if fd != self.gw.fd or not self.gw.present:
             raise OSError(errno.ENODEV, "device gone")
         if self.gw.eof:
+            self.gw.present = False     # end of file once; after that the device is simply gone
             return b""
         if not self.gw.readbuf:
             raise BlockingIOError(errno.EAGAIN, "nothing to read")
@@ -100,6 +102,7 @@ class Gateway:
         self.write_fails = False
         self.fd = None
         self.opens = self.closes = 0
+        self.open_attempts = []  # (virtual time, succeeded)
         self.pending = []       # reports produced by the device, not yet seen by the host
         self.readbuf = []       # report(s) the host can read right now
         self.wire = []          # every frame the host asked the gateway to transmit, in order
@@ -109,6 +112,7 @@ class Gateway:
         self.pending = []
         self.readbuf = []
         self._last_due = 0.0
+        self.wire.append({"kind": "open", "t": self.sim.loop.time()})
 
     def emit(self, report, lat_name):
         """Queue a report; it becomes deliverable lat(lat_name) seconds after the previous one of this
